@@ -9,7 +9,10 @@ RULE = ("from the serde configuration's facts: (R1) the derive-generated seriali
         "isaac_array_serde wrapper, announces the declared field count, and leaves self unchanged (R5); (R2) the generated visit_seq builds the "
         "value from one next_element result per field, in the same order, nothing from a default or constant; visit_map has one next_value and "
         "one missing_field site per field; (R3) isaac_array_serde::serialize and ::deserialize agree: tuple length = array length = 256, "
-        "element i written i-th and read into slot i; (R4) the feature wiring compiles (BlockRng<..>: Serialize)")
+        "element i written i-th and read into slot i; (R4) the feature wiring compiles (BlockRng<..>: Serialize); (R6) every generated body that "
+        "obtains a field other than by next_element::<FieldTy> (the newtype visitor, the wrappers emitted for #[serde(with/deserialize_with)]) "
+        "returns exactly the unmodified Ok payload of one call on the deserializer, crate-local functions on the way inlined; (R7) every "
+        "generated __SerializeWith wrapper, value-numbered, writes each element of its field once and in order")
 EXPLANATION = ("Field-complete writer, field-complete reader, and writer/reader agreement of the hand-written array (de)serializer are decided "
                "from the code the derive generated for this tree. serde_derive's semantics for the attributes, rand_core's own derives for "
                "BlockRng/BlockRng64 and the wire format's round-tripping of integers and tuples are the dependency's.")
@@ -229,6 +232,141 @@ def check_deserialize(chk, crate, adt):
                "next_value %d, missing_field %d, duplicate_field %d, fields %d" % (nv, nm, nd, len(fields)), where=body["span"][0])
 
 
+
+
+def writer_order(ev):
+    """what a value-numbered array writer did: announced tuple length, the array index(es) each serialize_element call passed, ..."""
+    seq = [(meth(c[1]), c[4]) for c in ev.calls]
+    tup = [c for n, c in seq if n == "serialize_tuple"]
+    l1 = None
+    if tup:
+        cs = [a for a in tup[0].args if a.op == "const" and a.w == 64]
+        l1 = cs[-1].aux if cs else None
+    elems = [c for n, c in seq if n == "serialize_element"]
+    order = []
+    elemsigs = [c[5][-1] for c in ev.calls if meth(c[1]) == "serialize_element"]
+    for sg in elemsigs:
+        names = set()
+        for a in sg:
+            T.atoms_of(a, names)
+        idx = sorted(int(m.group(1)) for n in names for m in [re.search(r"\[(\d+)\]$", str(n))] if m)
+        if not idx:
+            idx = sorted(a.args[1].aux for a in sg if a.op == "select" and a.args[1].op == "const" and a.args[0].op == "arr")
+        order.append(idx)
+    return l1, order, elems, seq
+
+
+def sym_with_refs(ev, st, tyid, name):
+    """symbolic value of a type, references materialised (serde_derive's wrappers hold `(&field,)`)"""
+    t = ev.tys[tyid]
+    if t["k"] in ("ref", "ptr"):
+        inner = sym_with_refs(ev, st, t["to"], name + ".*")
+        return Ref(st.alloc(inner, name), (), None, t["mut"])
+    if t["k"] == "tuple":
+        return Struct([sym_with_refs(ev, st, e, "%s.%d" % (name, i)) for i, e in enumerate(t["elems"])])
+    if t["k"] == "adt" and t.get("adt_kind") == "struct":
+        fs = t["variants"][0]["fields"]
+        if len(fs) == 1:
+            return sym_with_refs(ev, st, fs[0]["ty"], name)
+        return Struct([sym_with_refs(ev, st, f["ty"], "%s.%s" % (name, f["name"])) for f in fs])
+    return ev.symbolic(tyid, name, [], big_arrays_as_terms=False)
+
+
+def check_serialize_wrappers(chk, crate, adt):
+    """R7: the wrappers serde_derive emits for #[serde(with / serialize_with)] write the field they hold completely"""
+    ident = adt["path"].split("::")[-1]
+    pat = "Serialize for %s" % adt["path"]
+    n = 0
+    for key, b in sorted(crate.bodies.items()):
+        if pat not in key or "__SerializeWith" not in key or b["kind"] != "AssocFn" or b["krate"] != crate.name:
+            continue
+        inst = "%s::with-wrapper in serialize" % ident
+        chk.body(key)
+        where = b["span"][0]
+        ev = crate.evaluator(max_steps=3000000)
+        st = State()
+        try:
+            selfty = ev.tys[b["locals"][1]]["to"]
+            v = sym_with_refs(ev, st, selfty, "w")
+            oid = st.alloc(v, "w")
+            ev.call_body(st, key, [Ref(oid, ()), OpaqueV(None, "serializer")])
+        except (Unsupported, SymbolicLoop, Diverged, KeyError) as e:
+            chk.ob("R7", inst + "|field written", False, "not established: %s" % e, where=where)
+            continue
+        n += 1
+        l1, order, elems, seq = writer_order(ev)
+        nel = len(elems)
+        ok = l1 == nel and nel > 0 and order == [[i] for i in range(nel)] and any(m == "end" for m, _ in seq)
+        arrs = [o for o in st.objs.values() if isinstance(o, ArrV)]
+        ok = ok and any(a.n == nel for a in arrs)
+        chk.ob("R7", inst + "|announces the field's length, writes element i i-th, ends", ok,
+               "serialize_tuple(%s), %d serialize_element calls, first %s" % (l1, nel, order[:3]), where=where,
+               sample={"type": ident, "elements": nel})
+    return n
+
+
+def ok_payload_type(ev, body):
+    """type of the Ok payload of a body returning Result<T, E>"""
+    t = ev.tys[body["locals"][0]]
+    if t["k"] != "adt" or t.get("adt_kind") != "enum" or not t["variants"] or not t["variants"][0]["fields"]:
+        return None
+    return t["variants"][0]["fields"][0]["ty"]
+
+
+def check_value_paths(chk, crate, adt):
+    """R6: every derive-generated body that obtains a field value other than by next_element::<FieldTy> - the wrappers serde_derive
+    emits for #[serde(with / deserialize_with)] and the newtype visitor - must return, on the Ok path, exactly the unmodified Ok
+    payload of one call on the deserializer (crate-local functions on the way are inlined, so a function that adjusts the value
+    after reading it shows up as a difference)."""
+    ident = adt["path"].split("::")[-1]
+    pat = "Deserialize<'de> for %s" % adt["path"]
+    n = 0
+    for key, b in sorted(crate.bodies.items()):
+        if pat not in key or b["kind"] != "AssocFn" or b["krate"] != crate.name:
+            continue
+        last = b["def"].split("::")[-1]
+        wrapper = "__DeserializeWith" in key and last == "deserialize"
+        if not (wrapper or last == "visit_newtype_struct"):
+            continue
+        inst = "%s::%s" % (ident, "visit_newtype_struct" if not wrapper else ("with-wrapper in " + ("visit_seq" if "visit_seq::__DeserializeWith" in key else "visit_map")))
+        chk.body(key)
+        where = b["span"][0]
+        ev = crate.evaluator(max_steps=3000000)
+        st = State()
+        try:
+            args, objs = symbolic_args(ev, st, b)
+            ret = ev.call_body(st, key, args)
+        except (Unsupported, SymbolicLoop, Diverged) as e:
+            chk.ob("R6", inst + "|value path", False, "not established: %s" % e, where=where)
+            continue
+        n += 1
+        ok = isinstance(ret, EnumV) and 0 in ret.payloads and len(ret.payloads[0]) == 1
+        detail = "does not return a Result"
+        if ok:
+            val = ret.payloads[0][0]
+            tyid = ok_payload_type(ev, b)
+            if wrapper:
+                # struct __DeserializeWith { value: FieldTy, phantom, lifetime }
+                t = ev.tys[tyid] if tyid is not None else None
+                if isinstance(val, Struct) and t is not None and t["k"] == "adt":
+                    tyid = t["variants"][0]["fields"][0]["ty"]
+                    val = val.fields[0]
+                else:
+                    tyid = None
+            hits = []
+            if tyid is not None:
+                for c in ev.calls:
+                    exp = P.fresh_value(ev, tyid, c[4], "ret.Ok.0", 1)
+                    if same_value(val, exp):
+                        hits.append(meth(c[1]))
+            ok = len(hits) == 1 and hits[0].startswith("deserialize")
+            detail = "value is %s; calls on the way: %s" % ("the unmodified result of %s" % hits if hits else "not the unmodified result of any call",
+                                                           [meth(c[1]) for c in ev.calls][:6])
+        chk.ob("R6", inst + "|the field value is exactly what one deserializer call returned", ok, detail, where=where,
+               sample={"type": ident, "site": inst, "calls": [meth(c[1]) for c in ev.calls][:4]})
+    return n
+
+
 def check_isaac_array_serde(chk, crate):
     skey = dkey = vkey = None
     for key, b in crate.bodies.items():
@@ -252,23 +390,7 @@ def check_isaac_array_serde(chk, crate):
     st = State()
     args, objs = symbolic_args(ev, st, body)
     ev.call_body(st, skey, args)
-    seq = [(meth(c[1]), c[4]) for c in ev.calls]
-    tup = [c for n, c in seq if n == "serialize_tuple"]
-    l1 = None
-    if tup:
-        cs = [a for a in tup[0].args if a.op == "const" and a.w == 64]
-        l1 = cs[-1].aux if cs else None
-    elems = [c for n, c in seq if n == "serialize_element"]
-    order = []
-    elemsigs = [c[5][-1] for c in ev.calls if meth(c[1]) == "serialize_element"]
-    for sg in elemsigs:
-        names = set()
-        for a in sg:
-            T.atoms_of(a, names)
-        idx = sorted(int(m.group(1)) for n in names for m in [re.search(r"arr\[(\d+)\]", str(n))] if m)
-        if not idx:
-            idx = sorted(a.args[1].aux for a in sg if a.op == "select" and a.args[1].op == "const" and a.args[0].op == "arr")
-        order.append(idx)
+    l1, order, elems, seq = writer_order(ev)
     okw = l1 == 256 and order == [[i] for i in range(256)] and any(n == "end" for n, _ in seq)
     chk.ob("R3", "isaac_array_serde::serialize|tuple(256), element i written i-th, end()", okw,
            "serialize_tuple(%s), %d serialize_element calls, in-order: %s" % (l1, len(elems), order[:3] == [[0], [1], [2]]), where=body["span"][0],
@@ -320,7 +442,7 @@ def check_isaac_array_serde(chk, crate):
 
 
 def run(chk, tier):
-    pairs = 0
+    pairs = paths = 0
     for cname, want in SERDE_CRATES.items():
         crate = Crate(cname, "serde")
         chk.config(crate.config)
@@ -342,6 +464,8 @@ def run(chk, tier):
             try:
                 check_serialize(chk, crate, adt, sers[0])
                 check_deserialize(chk, crate, adt)
+                paths += check_value_paths(chk, crate, adt)
+                paths += check_serialize_wrappers(chk, crate, adt)
             except Anchor as e:
                 chk.ob("anchor", ident, False, str(e), nontrivial=False)
         if cname == "rand_isaac":
@@ -354,3 +478,4 @@ def run(chk, tier):
             okw = bool(k) and any("BlockRng<rand_isaac::isaac::IsaacCore>" in (t[1].get("path") or "") for _, t in sq.iter_calls(crate.bodies[k[0]]))
             chk.ob("R4", "rand_isaac|serde feature enables rand_core/serde (BlockRng<IsaacCore>: Serialize type-checks)", okw, "", nontrivial=False)
     chk.floor("R0", "Serialize/Deserialize pairs", pairs, 21)
+    chk.floor("R0", "derive-generated value paths outside next_element (newtype visitors, with-wrappers)", paths, 8)
